@@ -25,6 +25,9 @@ fn lookup(cmd: &str) -> Option<CaseFn> {
         "c11w" => cases::sched::c11w,
         "c11c" => cases::sched::c11c,
         "c13" => cases::refuse::c13,
+        "c18i" => cases::slice::c18i,
+        "c18v" => cases::slice::c18v,
+        "c18s" => cases::slice::c18s,
         "c14" => cases::fault::c14,
         "c12x" => cases::tfb::c12x,
         "c12t" => cases::tfb::c12t,
